@@ -359,6 +359,17 @@ func main() {
 			fault = "" // nothing this phase must produce: the fault does not exist here
 		}
 	}
+	if (fault == "trunc_outs" || fault == "no_outs" || fault == "null_outs") && phase != "split" {
+		// a stage that declares no outputs owes no readable _outs: mrp never
+		// looks at the file, so a damaged one is not a failure of the job
+		n := len(st.Outs)
+		if phase == "main" && st.Split {
+			n += len(st.ChunkOuts)
+		}
+		if n == 0 {
+			fault = ""
+		}
+	}
 	if (fault == "missing_key" || fault == "wrong_type") && phase == "split" {
 		fault = "bad_stage_defs"
 	}
